@@ -21,6 +21,7 @@ fn main() {
     "c13" => vh::engines::c13::run(),
     "c14" => vh::engines::c14::run(),
     "c15" => vh::engines::c15::run(),
+    "c16" => vh::engines::c16::run(),
     "parse" => {
       // debug helper: vh parse "<names,comma separated>" "<text>"
       let names: std::collections::BTreeSet<String> = args[2].split(',').filter(|s| !s.is_empty()).map(|s| s.to_string()).collect();
